@@ -298,7 +298,9 @@ impl Database {
                     .map(|&tid| self.shared.dirty_tracker.dirty_count(tid))
                     .sum();
 
-                if total_dirty_pages as usize > COMMIT_BATCH_SIZE {
+                // each dirty table adds its header page to the logged set, and the small-commit
+                // path holds one pool buffer per logged page
+                if total_dirty_pages as usize + dirty_table_ids.len() > COMMIT_BATCH_SIZE {
                     self.execute_chunked_wal_commit(&dirty_table_ids)?;
                 } else {
                     self.execute_small_commit(&dirty_table_ids)?;
